@@ -26,9 +26,11 @@ RULE = (
 )
 ASSUMPTIONS = [
     "'delivered authentic' is decided by the independent tap (vf.refwire) at emission and by the simulator's delivery log",
-    "timeliness is only demanded for packets the endpoint could process (receive keys installed, space not discarded, not closing, "
-    "current path validated) and with timers fired exactly at the requested deadline; 30 % of the cases include key updates and "
-    "client address rebinding (their stalls were repaired, see DESIGN section 11)",
+    "timeliness is only demanded for packets the endpoint could open (observed at CryptoPair.decrypt_packet of that endpoint, not in "
+    "its ack_queue), while it is not closing and while the address it has to use is validated according to the monitor's own path "
+    "model (Handshake packet opened from it, or PATH_RESPONSE echoing a challenge sent to it), with timers fired exactly at the "
+    "requested deadline; 30 % of the cases include key updates and client address rebinding, 20 % forged path probes from an "
+    "address the client does not use",
     "max_ack_delay is the value aioquic puts on the wire (25 ms); a 1 microsecond slack absorbs float rounding",
 ]
 
